@@ -134,6 +134,8 @@ type Machine struct {
 	Harness    *ssa.Package
 	SplitBounds bool
 	heldK map[string]bool
+	opaqueGlobals map[*Object]string
+	ErrWhere string
 }
 
 type ufEntry struct {
@@ -185,6 +187,7 @@ func (m *Machine) runPath(fn *ssa.Function, prefix []int) {
 	m.fresh = 0
 	m.nextObj = 0
 	m.globals = map[*ssa.Global]*Object{}
+	m.opaqueGlobals = map[*Object]string{}
 	m.inited = map[*ssa.Package]bool{}
 	m.nondets = nil
 	m.bufs = nil
@@ -445,7 +448,20 @@ func (m *Machine) call(fn *ssa.Function, args []Value, bind []Value) Value {
 	if fn.Pkg != nil && m.OwnPkgs[fn.Pkg] && !strings.HasPrefix(fn.Name(), "verif") && !strings.HasPrefix(fn.Name(), "Verif") {
 		m.funcs[fn.String()] = true
 	}
-	defer func() { m.depth--; m.stack = m.stack[:len(m.stack)-1] }()
+	defer func() {
+		if r := recover(); r != nil {
+			if _, isGo := r.(*goPanicSig); !isGo {
+				if _, isEnd := r.(*pathEnd); !isEnd && m.ErrWhere == "" {
+					m.ErrWhere = strings.Join(m.stack, " > ")
+				}
+			}
+			m.depth--
+			m.stack = m.stack[:len(m.stack)-1]
+			panic(r)
+		}
+		m.depth--
+		m.stack = m.stack[:len(m.stack)-1]
+	}()
 	fr := &frame{fn: fn, locals: map[ssa.Value]Value{}, loops: map[*ssa.BasicBlock]int{}}
 	for i, p := range fn.Params {
 		fr.locals[p] = args[i]
@@ -557,6 +573,16 @@ func (m *Machine) get(fr *frame, v ssa.Value) Value {
 	return val
 }
 
+// runInit lists the non-repository packages whose initialiser is executed symbolically (small, pure Go).
+// Every other foreign package is NOT initialised: its error-typed globals (io.EOF-like sentinels such as
+// net.ErrClosed) become distinct opaque error objects, and reading any other of its globals is an engine error.
+var runInit = map[string]bool{
+	"io": true, "errors": true, "bytes": true, "container/list": true, "encoding/hex": true,
+	"golang.org/x/crypto/cryptobyte": true, "golang.org/x/crypto/cryptobyte/asn1": true, "crypto/subtle": true,
+	"strings": true, "unicode/utf8": true, "sort": true, "encoding/binary": true, "math/bits": true, "strconv": true,
+	"crypto": true, "context": true, "sync": true, "sync/atomic": true, "hash": true, "bufio": true,
+}
+
 func (m *Machine) globalObj(g *ssa.Global) *Object {
 	if o, ok := m.globals[g]; ok {
 		return o
@@ -565,14 +591,28 @@ func (m *Machine) globalObj(g *ssa.Global) *Object {
 	pkg := g.Pkg
 	if !m.inited[pkg] {
 		m.inited[pkg] = true
+		own := m.OwnPkgs[pkg] || pkg == m.Harness || runInit[pkg.Pkg.Path()]
 		for _, mem := range pkg.Members {
 			if gg, ok := mem.(*ssa.Global); ok {
 				et := gg.Type().(*types.Pointer).Elem()
 				m.globals[gg] = m.newObj(et, m.zeroCell(et))
+				if !own {
+					if types.Identical(et, types.Universe.Lookup("error").Type()) {
+						ep := m.Prog.ImportedPackage("errors")
+						est := ep.Type("errorString").Type()
+						obj := m.newObj(est, m.zeroCell(est))
+						m.store(extend(Ptr{Obj: obj}, PathElem{Kind: 0, I: 0}), Str{m.litRope([]byte(pkg.Pkg.Path() + "." + gg.Name()))})
+						m.store(Ptr{Obj: m.globals[gg]}, Iface{T: types.NewPointer(est), V: Ptr{Obj: obj}})
+					} else {
+						m.opaqueGlobals[m.globals[gg]] = pkg.Pkg.Path() + "." + gg.Name()
+					}
+				}
 			}
 		}
-		if init := pkg.Func("init"); init != nil && init.Blocks != nil {
-			m.call(init, nil, nil)
+		if own {
+			if init := pkg.Func("init"); init != nil && init.Blocks != nil {
+				m.call(init, nil, nil)
+			}
 		}
 	}
 	o, ok := m.globals[g]
@@ -580,6 +620,9 @@ func (m *Machine) globalObj(g *ssa.Global) *Object {
 		et := g.Type().(*types.Pointer).Elem()
 		o = m.newObj(et, m.zeroCell(et))
 		m.globals[g] = o
+	}
+	if name, opaque := m.opaqueGlobals[o]; opaque {
+		panic(unsupported("access to global " + name + " of a package whose initialiser is not executed"))
 	}
 	return o
 }
@@ -846,6 +889,13 @@ func (m *Machine) streamNow(extra *sym.Term) []StreamRec {
 
 // Where names the innermost function being executed (for engine error messages).
 func (m *Machine) Where() string {
+	if m.ErrWhere != "" {
+		w := m.ErrWhere
+		if len(w) > 300 {
+			w = "…" + w[len(w)-300:]
+		}
+		return w
+	}
 	if len(m.stack) == 0 {
 		return "?"
 	}
